@@ -93,26 +93,26 @@ def build(simkey):
     if cls == "Elastic":
         if var == "2d":
             m, dim = mesh_2d_mixed(), 2
-            mat = Models.Elastic.Isotropic(2, E=8.0, v=0.25, planeStress=True, thickness=1.0)
+            mat = Models.Elastic.Isotropic(2, E=8.0, v=0.25, planeStress=True, thickness=1.5)
         elif var == "2d-strain":
             m, dim = mesh_2d_fan(), 2
             mat = Models.Elastic.Isotropic(2, E=8.0, v=0.25, planeStress=False, thickness=2.0)
         else:
             m, dim = (mesh_3d_mixed() if var == "3d" else mesh_3d_tets()), 3
-            mat = Models.Elastic.Isotropic(3, E=8.0, v=0.25)
+            mat = Models.Elastic.Isotropic(3, E=8.0, v=0.25, thickness=2.5)
         s = Simulations.Elastic(m, mat)
         meta.update(cfg="dim%d" % dim, dim=dim, dof_n=dim)
     elif cls == "PhaseField":
         dim = 2 if var == "2d" else 3
         m = mesh_2d_mixed() if dim == 2 else mesh_3d_mixed()
-        mat = Models.Elastic.Isotropic(dim, E=8.0, v=0.25, planeStress=True, thickness=1.0) if dim == 2 else Models.Elastic.Isotropic(3, E=8.0, v=0.25)
+        mat = Models.Elastic.Isotropic(dim, E=8.0, v=0.25, planeStress=True, thickness=1.5) if dim == 2 else Models.Elastic.Isotropic(3, E=8.0, v=0.25, thickness=2.5)
         s = Simulations.PhaseField(m, Models.PhaseField(mat, "Bourdin", "AT2", 1.0, 0.5))
         meta.update(cfg="dim%d" % dim, dim=dim, dof_n=dim)
     elif cls == "HyperElastic":
         d, dyn = var.split("-")
         dim = 2 if d == "2d" else 3
         m = mesh_2d_mixed() if dim == 2 else mesh_3d_mixed()
-        s = Simulations.HyperElastic(m, Models.HyperElastic.NeoHookean(dim, K=5.0))
+        s = Simulations.HyperElastic(m, Models.HyperElastic.NeoHookean(dim, K=5.0, thickness=1.5 if dim == 2 else 2.5))
         if dyn == "dynamic":
             s.Solver_Set_Hyperbolic_Algorithm(dt=0.125)
         meta.update(cfg="dim%d_%s" % (dim, dyn), dim=dim, dof_n=dim, scale=1.0 / 32)
@@ -120,7 +120,7 @@ def build(simkey):
         from EasyFEA.Models.Elastic import Isotropic
         dim = 2 if var.startswith("2d") else 3
         m = mesh_2d_mixed() if dim == 2 else mesh_3d_mixed()
-        kw = dict(thickness=1.0) if dim == 2 else {}
+        kw = dict(thickness=1.5) if dim == 2 else dict(thickness=2.5)
         plastic = var.endswith("p")
         if plastic:
             kw.update(yieldSurface=Models.InElastic.Yield.VonMises(250.0), hardening=Models.InElastic.IsotropicHardening.Linear(2000.0))
@@ -128,7 +128,7 @@ def build(simkey):
         meta.update(cfg="dim%d%s" % (dim, "_slots" if plastic else ""), dim=dim, dof_n=dim)
     elif cls == "Thermal":
         m = mesh_2d_mixed()
-        s = Simulations.Thermal(m, Models.Thermal(k=1, c=1))
+        s = Simulations.Thermal(m, Models.Thermal(k=1, c=1, thickness=1.5))
         meta.update(cfg="any", dim=2, dof_n=1)
     elif cls == "WeakForms":
         dof = int(var[-1])
@@ -138,7 +138,7 @@ def build(simkey):
         @BiLinearForm
         def bf(u, v):
             return u.grad.dot(v.grad) if dof == 1 else u.grad.ddot(v.grad)
-        s = Simulations.WeakForms(m, Models.WeakForms(field, bf))
+        s = Simulations.WeakForms(m, Models.WeakForms(field, bf, thickness=1.5))
         meta.update(cfg="dof%d" % dof, dim=m.dim, dof_n=dof)
     elif cls == "Beam":
         dim = int(var[0])
@@ -252,6 +252,32 @@ def strain_from_gradient(simu, meta):
     return out
 
 
+def elem_energy(simu, meta, u):
+    """1/2 u_e' K_e u_e per element, from the simulation's own local matrices (thickness as the
+    ASSEMBLY applies it), elements ordered like Get_list_groupElem"""
+    dim = meta["dim"]
+    local = simu.Construct_local_matrix_system(simu.problemType)
+    out = []
+    for g in groups(simu):
+        Ke = np.asarray(local[g][0])
+        ue = u[np.asarray(g.Get_assembly_e(dim))]
+        out.append(0.5 * np.einsum("ei,eij,ej->e", ue, Ke, ue))
+    return np.concatenate(out)
+
+
+def hyper_energy(simu, meta):
+    """int W dOmega per element, the thickness entering in 2-D only (as in the assembly)"""
+    from EasyFEA.FEM import MatrixType
+    from EasyFEA.Models.HyperElastic._state import HyperElasticState
+    t = float(simu.material.thickness) if meta["dim"] == 2 else 1.0
+    out = []
+    for g in groups(simu):
+        state = HyperElasticState(g, simu.displacement, MatrixType.rigi)
+        w = np.asarray(g.Get_weightedJacobian_e_pg(MatrixType.rigi))
+        out.append(t * np.sum(w * np.asarray(simu.material.Compute_W(state)), axis=1))
+    return np.concatenate(out)
+
+
 PAIRS = {2: {"xx": (0, 0), "yy": (1, 1), "xy": (0, 1)},
          3: {"xx": (0, 0), "yy": (1, 1), "zz": (2, 2), "yz": (1, 2), "xz": (0, 2), "xy": (0, 1)}}
 
@@ -335,6 +361,11 @@ def expected(simu, meta, st, name):
     if name == "Wdef" and cls == "Elastic":
         K = simu.Get_K_C_M_F()[0]
         return ("s", 0.5 * st["u"] @ (K @ st["u"]))
+    if name == "Wdef_e" and cls == "Elastic":
+        return ("e", elem_energy(simu, meta, st["u"]))
+    if name in ("W", "W_e") and cls == "HyperElastic":
+        We = hyper_energy(simu, meta)
+        return ("s", float(We.sum())) if name == "W" else ("e", We)
     return None
 
 
@@ -598,6 +629,36 @@ def extra_checks(seed):
         scale = float(np.abs(K).sum(axis=1).max() * np.abs(st["u"]).max())
         ok = bool(np.all(np.abs(Ku.sum(axis=0)) <= 1e-10 * scale))
         rec(simkey, "sum-internal-forces=0", ok, "resultant %s scale %.3g" % (Ku.sum(axis=0).tolist(), scale))
+    # energies of the other classes against the Elastic reference with the same law / thickness
+    for dim, key in ((2, "2d"), (3, "3d")):
+        try:
+            from EasyFEA import Models, Simulations
+            from EasyFEA.Models.Elastic import Isotropic
+            t = 1.5 if dim == 2 else 2.5
+            ref, meta = build("Elastic:%s" % key)
+            st = inject(ref, meta, rng)
+            K = ref.Get_K_C_M_F()[0]
+            half = 0.5 * st["u"] @ (K @ st["u"])
+            ok, d = close(ref.Results_dict_Energy()[r"$\Psi_{elas}$"], half)
+            rec("Elastic:%s" % key, "Results_dict_Energy=half-uKu", ok, d)
+            # PhaseField with zero damage
+            pf, mpf = build("PhaseField:%s" % key)
+            pf._Set_solutions(pf.ProblemTypes.elastic, st["u"].copy())
+            pf._Set_solutions(pf.ProblemTypes.damage, np.zeros(pf.mesh.Nn))
+            ok, d = close(pf.Result("Wdef"), half)
+            rec("PhaseField:%s" % key, "Wdef(d=0)=Elastic-half-uKu", ok, d)
+            # InElastic without yield surface: stored energy = elastic energy
+            kw = dict(thickness=t)
+            law3 = Isotropic(3, E=8.0, v=0.25)
+            ie = Simulations.InElastic(ref.mesh, Models.InElastic.Behavior(dim, law3, **kw))
+            ie._Set_solutions(ie.problemType, st["u"].copy())
+            refI = Simulations.Elastic(ref.mesh, Isotropic(dim, E=8.0, v=0.25, planeStress=False, thickness=t))
+            KI = refI.Get_K_C_M_F()[0]
+            psi = list(ie.Results_dict_Energy().values())[0]
+            ok, d = close(psi, 0.5 * st["u"] @ (KI @ st["u"]))
+            rec("InElastic:%s" % key, "Psi=Elastic-half-uKu", ok, d)
+        except Exception:
+            rec("energy:%s" % key, "energy-cross-checks", False, traceback.format_exc()[-500:], kind="harness")
     # reaction balance after a solve with the whole boundary constrained
     for simkey in ("Elastic:2d-strain",):
         simu, meta = build(simkey)
@@ -701,12 +762,75 @@ def probe_reshape(seed):
     return out
 
 
+def run_history(simkey, seed, names=None, iters=(0, 1, -1, -2, 2)):
+    """three saved iterations holding different injected states; every result name is then
+    queried through Result(name, nodeValues, iter=i) for i in {0, 1, -1, -2, last} while the
+    simulation sits on ANOTHER iteration, and compared with the value obtained when the
+    iteration was saved (which the other checks tie to the injected state)"""
+    rng = np.random.default_rng([seed, 4242, sum(map(ord, simkey))])
+    simu, meta = build(simkey)
+    # velocities / accelerations are part of a saved iteration only under a time scheme
+    if meta["cls"] in ("Elastic", "WeakForms"):
+        simu.Solver_Set_Hyperbolic_Algorithm(dt=0.125)
+    elif meta["cls"] == "Thermal":
+        simu.Solver_Set_Parabolic_Algorithm(dt=0.125)
+    nsave = 3
+    saved = []
+    adv = None
+    for it in range(nsave):
+        inject(simu, meta, rng)
+        simu.Need_Update()        # the private setters do not notify: force a fresh assembly
+        simu.Save_Iter()
+        adv = list(simu.Results_Available())
+        snap = {}
+        for name in adv:
+            if names is not None and name not in names:
+                continue
+            for form, nv in (("node", True), ("elem", False)):
+                try:
+                    r = query(simu, name, nv)
+                    snap[(name, form)] = None if r is None else np.array(r, dtype=float, copy=True)
+                except Exception:
+                    snap[(name, form)] = "EXC"
+        saved.append(snap)
+    out = []
+    for i in iters:
+        tgt = i % nsave
+        for (name, form), ref in saved[tgt].items():
+            if isinstance(ref, str) or ref is None:
+                continue
+            if meta["cls"] == "PhaseField" and name in ("psiP", "Psi_Crack"):
+                # history-dependent by design: Set_Iter restores (u, d) but keeps the history field
+                # H = max psi+ unless resetAll=True (properties C15 / C17), so these two are not
+                # functions of the restored iteration alone
+                continue
+            try:
+                simu.Set_Iter((tgt + 1) % nsave)          # sit on another iteration
+                buf = io.StringIO()
+                with contextlib.redirect_stdout(buf):
+                    r = simu.Result(name, form == "node", iter=i)
+                if r is None:
+                    ok, d = False, "returned None"
+                else:
+                    ok, d = close(r, ref, tol=1e-12)
+                    if ok and not np.allclose(saved[(tgt + 1) % nsave][(name, form)], ref, rtol=1e-9, atol=1e-12):
+                        d += " (differs from the current iteration: discriminating)"
+            except Exception as ex:
+                ok, d = False, "%s: %s" % (type(ex).__name__, str(ex)[:200])
+            trivial = bool(np.allclose(saved[(tgt + 1) % nsave].get((name, form), ref), ref, rtol=1e-9, atol=1e-12)) if not isinstance(saved[(tgt + 1) % nsave].get((name, form)), str) and saved[(tgt + 1) % nsave].get((name, form)) is not None and np.shape(saved[(tgt + 1) % nsave].get((name, form))) == np.shape(ref) else False
+            out.append({"sim": simkey, "cls": meta["cls"], "cfg": meta["cfg"], "name": name, "form": "%s@iter=%d" % (form, i), "ok": bool(ok), "kind": "iter",
+                        "detail": "Result(%r, %s, iter=%d) vs value at save time: %s" % (name, form == "node", i, d), "trivial": trivial and ok, "seed": seed})
+    return out
+
+
 def replay(simkey, seed, name):
     """used by replay snippets: re-run one name; returns the failing records"""
     if simkey == "probe:reshape":
         recs = probe_reshape(seed)
     elif simkey == "extra":
         recs = [r for r in extra_checks(seed) if r["name"] == name]
+    elif simkey.startswith("history|"):
+        recs = run_history(simkey.split("|", 1)[1], seed, names=[name])
     else:
         recs = run_sim(simkey, seed, names=[name])[0]
     bad = [r for r in recs if not r["ok"]]
@@ -733,6 +857,12 @@ def main():
                 cases.append({"sim": k, "cls": k.split(":")[0], "cfg": "", "name": "*", "form": "build", "ok": False, "kind": "harness",
                               "detail": traceback.format_exc()[-1200:], "seed": seed})
     if not req.get("only"):
+        for k in keys:
+            try:
+                cases += run_history(k, seed)
+            except Exception:
+                cases.append({"sim": k, "cls": k.split(":")[0], "cfg": "", "name": "*", "form": "history", "ok": False, "kind": "harness",
+                              "detail": traceback.format_exc()[-1200:], "seed": seed})
         try:
             ex = extra_checks(seed)
             for r in ex:
